@@ -23,7 +23,7 @@ func init() {
 }
 
 func (c *C13) Rule() string {
-	return "one run = 2..5 overlapping /prove requests (at least two valid ones with pairwise distinct input hashes, mixed with unsatisfiable, mis-shaped, malformed and non-POST ones) on one real server; every hand-over between handler goroutines happens at an inserted yield point chosen by the tape (uniform, sticky, PCT with 1..3 priority changes, starve-one), request bytes arrive in tape-chosen fragments; each response is judged against its own request only (status, error code, proof decoded by our decoder verifying for its own hash); evaluations = responses judged; non-trivial = run in which at least two handler tasks were enabled at the same step; distinct = context switches actually taken (site of task X -> next site of task Y != X)"
+	return "one run = 2..5 overlapping /prove requests (at least two valid ones with pairwise distinct input hashes, mixed with unsatisfiable, mis-shaped, malformed and non-POST ones) on one real server; every hand-over between handler goroutines happens at an inserted yield point chosen by the tape (uniform, sticky, PCT with 1..3 priority changes, starve-one), request bytes arrive in tape-chosen fragments; each response is judged against its own request only (status, error code, proof decoded by our decoder verifying for its own hash); evaluations = responses judged; non-trivial = run in which at least two handler tasks were enabled at the same step; distinct = context switches actually taken (site of task X -> next site of task Y != X); in a quarter of the runs 2..12 further clients stall inside their request bodies until the system has been quiet for 5 s of simulated time, and the other requests must be answered meanwhile"
 }
 func (c *C13) Plan(tier string) engine.Plan {
 	if tier == "thorough" {
